@@ -5,7 +5,7 @@ from fractions import Fraction as F
 from vp import build, ref
 
 
-def lattice_1d(p, kv, n, extra=(), limit=5):
+def lattice_1d(p, kv, n, extra=(), limit=5, near=False):
     """Parameters in [kv[p], kv[n]]: both ends, breakpoints, span midpoints and the extras; at most ``limit`` +
     len(extra) values, always containing the ends and the extras."""
     a, b = kv[p], kv[n]
@@ -13,6 +13,10 @@ def lattice_1d(p, kv, n, extra=(), limit=5):
     mids = [x + (y - x) / 2.0 for x, y in zip(bps, bps[1:])]
     cand = sorted(set(bps + mids))
     must = sorted(set([a, b] + [e for e in extra if a <= e <= b]))
+    if near and len(bps) >= 2:
+        # a few parameters 1/4096 of a span away from a breakpoint (where some basis functions are tiny but not zero)
+        must = sorted(set(must + [bps[0] + (bps[1] - bps[0]) / 4096.0, bps[-1] - (bps[-1] - bps[-2]) / 65536.0]
+                          + ([bps[1] - (bps[1] - bps[0]) / 65536.0, bps[1] + (bps[2] - bps[1]) / 4096.0] if len(bps) >= 3 else [])))
     rest = [c for c in cand if c not in must]
     room = max(0, limit - 2)
     if len(rest) > room:
@@ -27,7 +31,7 @@ def lattice(degs, kvs, sizes, extras=None, limit=None):
     if limit is None:
         limit = {1: 9, 2: 5, 3: 3}[pdim]
     extras = extras or [()] * pdim
-    axes = [lattice_1d(p, kv, n, extra=e, limit=limit) for p, kv, n, e in zip(degs, kvs, sizes, extras)]
+    axes = [lattice_1d(p, kv, n, extra=e, limit=limit, near=(pdim == 1)) for p, kv, n, e in zip(degs, kvs, sizes, extras)]
     return list(itertools.product(*axes))
 
 
